@@ -81,6 +81,12 @@ replies client::connect(std::string_view hostname,
     replies replies;
     reply reply = recv(replies);
 
+    /* 120 Service ready in nnn minutes: the greeting itself (220) follows. */
+    if (reply.get_code() == 120)
+    {
+        reply = recv(replies);
+    }
+
     if (reply.is_negative())
     {
         return replies;
